@@ -345,6 +345,16 @@ class Intrinsics:
             return a.t == b.t  # immutable values: identity read as equality
         if self.ex.is_concrete(a) and self.ex.is_concrete(b):
             return a is b or (type(a) is type(b) and a == b and isinstance(a, (int, str)))
+        if isinstance(a, SV) and isinstance(b, SV) and type(a) is not type(b):
+            return False     # values of different kinds (an int and a float, a str and an int) are never the same object
+        if (isinstance(a, float) and isinstance(b, (SInt, SStr, SBool))) or (isinstance(b, float) and isinstance(a, (SInt, SStr, SBool))):
+            return False     # inf / nan constants against a symbolic int, str or bool
+        for x, y in ((a, b), (b, a)):
+            if isinstance(x, float) and isinstance(y, SReal):
+                import math as _m
+                if not _m.isfinite(x):
+                    return False   # symbolic reals stand for finite numbers
+                return y.t == z3.RealVal(repr(x))
         raise Unsupported(f"identity of {a!r} and {b!r}")
 
     def equal(self, a, b):
